@@ -12,7 +12,7 @@ import os
 import shutil
 
 from .. import tlc
-from ..apireplay import run_genparser_pairs, run_history, run_threads
+from ..apireplay import run_genparser_pairs, run_history, run_identity, run_threads
 from ..common import Check, pmap
 from ..dotgraph import Graph, split_action
 
@@ -104,6 +104,39 @@ def run(tier):
                               'observed': {'abstract': a, 'fingerprint': f}, 'why': 'response differs from the same call in a fresh interpreter',
                               'as_coded_spec_predicts': pred, 'spec': 'ApiHistory!HistoryIndependent'},
                              key=json.dumps([c, a.get('sem'), a.get('name'), wa.get('sem'), wa.get('name')], sort_keys=True))
+        # identities of semantics objects: spec/SemIdentity.tla (the action cache must be keyed so that an entry cannot outlive its
+        # object); TLC proves the design as coded, refutes the by-address design, and the behaviours of the refuted design (with
+        # address reuse) are replayed into the real code
+        ri = tlc.run_tlc('SemIdentity', cfg='SemIdentity', timeout=600)
+        ck.add_tlc(ri, 'SemIdentity (cache keyed by object)')
+        if ri.violated:
+            ck.violation({'kind': 'history', 'inputs': {'spec': 'SemIdentity'}, 'expected': 'ActionsOfGivenObject, TypeOK', 'observed': ri.violated,
+                          'trace': ri.trace[:40]}, key='semid' + str(ri.violated))
+        rb = tlc.run_tlc('SemIdentity', cfg='SemIdentityById', timeout=600)
+        ck.notes['by_address_design_refuted'] = rb.violated
+        if not rb.violated:
+            raise tlc.MachineryError('SemIdentity: the by-address design is not refuted (vacuous model)')
+        dumpc = os.path.join(d, 'semid.cfg')
+        open(dumpc, 'w').write('CONSTANTS Objects = {"p1", "t1", "t2"}\nAddrs = {"A", "B"}\nById = TRUE\nMaxSteps = 6\nSPECIFICATION Spec\nCHECK_DEADLOCK FALSE\n')
+        doti = os.path.join(d, 'gi')
+        tlc.run_tlc('SemIdentity', cfg=dumpc, workers=1, dump_dot=doti, timeout=600)
+        gi = Graph(doti + '.dot')
+        ipaths = gi.edge_cover_paths(is_final=lambda n: True)
+        ipaths = [pp for pp in ipaths if any(lbl.startswith('Parse') for lbl, _n in pp[1])]
+        if tier == 'quick':
+            ipaths = ipaths[ck.seed % 3::3]
+        icases = [{'path': [[lbl, gi.states[n]] for lbl, n in pp[1]]} for pp in ipaths]
+        ires = pmap(run_identity, icases, procs=16, chunk=1, recycle=1)
+        nre = 0
+        for ic, io in zip(icases, ires):
+            ck.count(evaluations=1, traces=1)
+            nre += io['reused']
+            for b in io['bad']:
+                ck.violation({'kind': 'history', 'inputs': {'history': b['history']}, 'expected': b['expected'], 'observed': b['observed'],
+                              'why': f"model.parse(text, semantics=<{b['object']}>) ran the actions of another semantics object (its address was "
+                                     'used by an earlier object)', 'spec': 'SemIdentity!ActionsOfGivenObject'}, key='semid' + b['object'] + b['observed'])
+        ck.notes['identity_histories'] = len(icases)
+        ck.notes['identity_address_reuses_achieved'] = nre
         # a long-lived generated parser object: every ordered pair of per-call settings
         for c, bad in zip(['g1', 'g2'], pmap(run_genparser_pairs, [{'g': 'g1'}, {'g': 'g2'}], procs=2, chunk=1, recycle=1)):
             ck.count(evaluations=72, traces=72, nontrivial=72)
